@@ -6,6 +6,7 @@
 #include <stddef.h>
 #include <stdint.h>
 #include <algorithm>
+#include <cmath>
 #include <memory>
 #include <vector>
 
@@ -120,6 +121,27 @@ template <class T>
 size_t BucketBinarySearch(T value, const std::vector<double> &boundaries)
 {
   auto low = std::lower_bound(boundaries.begin(), boundaries.end(), value);
+  return low - boundaries.begin();
+}
+
+// An int64_t above 2^53 is in general not representable as a double: comparing it with a boundary
+// after the implicit conversion to double would put e.g. 2^53 + 1 into the bucket "<= 2^53".
+// Compare exactly instead: for an integer v, boundary < v  <=>  floor(boundary) < v.
+template <>
+inline size_t BucketBinarySearch<int64_t>(int64_t value, const std::vector<double> &boundaries)
+{
+  auto low = std::lower_bound(boundaries.begin(), boundaries.end(), value,
+                              [](double boundary, int64_t v) noexcept {
+                                if (!(boundary < 9223372036854775808.0))  // >= 2^63 (or NaN)
+                                {
+                                  return false;
+                                }
+                                if (boundary < -9223372036854775808.0)
+                                {
+                                  return true;
+                                }
+                                return static_cast<int64_t>(std::floor(boundary)) < v;
+                              });
   return low - boundaries.begin();
 }
 
